@@ -289,6 +289,22 @@ pub unsafe extern "C" fn lseek(fd: c_int, offset: i64, whence: c_int) -> i64 {
     libc::syscall(libc::SYS_lseek, fd, offset, whence) as i64
 }
 
+/// the working directory is process-wide state: changing it is a scheduling point (taken *after*
+/// the change, so that other simulated threads run while it is in force)
+#[no_mangle]
+pub unsafe extern "C" fn chdir(path: *const c_char) -> c_int {
+    let r = libc::syscall(libc::SYS_chdir, path) as c_int;
+    io_point("chdir");
+    r
+}
+
+#[no_mangle]
+pub unsafe extern "C" fn fchdir(fd: c_int) -> c_int {
+    let r = libc::syscall(libc::SYS_fchdir, fd) as c_int;
+    io_point("chdir");
+    r
+}
+
 #[no_mangle]
 pub unsafe extern "C" fn statx(dirfd: c_int, path: *const c_char, flags: c_int, mask: libc::c_uint, buf: *mut libc::statx) -> c_int {
     io_point("stat");
